@@ -49,6 +49,31 @@ SCEN = {1: ("insert_resize_vs_find_remove", "L0={k0}, hint 1; T0 insert(k1) -> r
         5: ("find_or_insert_same_key", "empty, hint 0; both threads lock_bucket_handle/find/insert-if-absent/unlock on ONE key with their own element"),
         6: ("remove_vs_remove_same_key", "old L0={k0,k2}; T0 remove(k0) || T1 remove(k0); find(k2)"),
         7: ("colliding_inserts_resize", "L0={k0}, hint 1; T0 insert(k1) || T1 insert(k2); find(k0)")}
+def thread_loop_bounds(inner, threads, spin, other, big):
+    """Engine S: --unwind N would apply to every (nested) loop of the big inlined thread functions.  After the generator
+    ran, give each loop of a thread function its own bound: stutter-pruned spin loops (lock acquisition) `spin`, all other
+    loops (bucket chains, old-table chain) `other`, except {("threadN", k): bound} in `big` (resize loops over buckets).
+    Loops are numbered by goto-cc in the order of their backward gotos.  Unwinding assertions stay on: a bound that is too
+    small is reported as an internal error, never as a pass."""
+    import re
+    def gen(ctx, q, qdir, overlays):
+        inner(ctx, q, qdir, overlays)
+        txt = open(q.srcs[-1]).read().split("\n")
+        for t in threads:
+            q.unwind_fn.pop(t, None)
+            start = next(i for i, l in enumerate(txt) if l.startswith("static void %s(void) {" % t))
+            labels, k = {}, 0
+            for i in range(start, len(txt)):
+                l = txt[i]
+                if l.startswith("}"): break
+                m = re.match(r"\s*(B_\w+): ;", l)
+                if m: labels[m.group(1)] = i
+                for g in re.finditer(r"goto (B_\w+);", l):
+                    if g.group(1) in labels:          # backward goto = one loop
+                        b = big.get((t, k), spin if "VASSUME(0)" in l else other)
+                        q.unwindset.append("%s.%d:%d" % (t, k, b)); k += 1
+            q.info.setdefault("seqir", {})["thread_loops_" + t] = k
+    return gen
 def queries(ctx):
     qs = []
     def ind(name, shape=None, extra=(), tiers=("quick", "thorough"), checks=(), timeout=1500, unwindset=()):
@@ -71,17 +96,19 @@ def queries(ctx):
         for sh in range(7):
             ind(name, sh)
     # ---- concurrent half (Engine S)
-    def conc(sc, R, tiers, keys=None, extra=(), timeout=3000):
+    def conc(sc, R, tiers, keys=None, extra=(), timeout=3000, other=4, big=None):
         name, what = SCEN[sc]
         kd = ["KEY%d=%dULL" % (i, k) for i, k in enumerate(keys or KEYS)]
-        qs.append(Q("conc_%s_r%d" % (name, R), [], defs=kd + ["VP_MEMO_HASH=1", "SCEN=%d" % sc] + list(extra), engine="S", patches=MEMO,
+        qs.append(Q("conc_%s_r%d" % (name, R), [], defs=kd + ["SCEN=%d" % sc] + list(extra), engine="S",
                     units=[U, "parsec/class/parsec_hash_table.h", RW],
-                    gen=seqir(["hc.c", "repo:" + RW], threads=["thread0", "thread1"], rounds=R, drain=True, benign=["nanosleep"], thread_unwind=9),
+                    gen=thread_loop_bounds(seqir(["hc.c", "repo:" + RW], threads=["thread0", "thread1"], rounds=R, drain=True, benign=["nanosleep"]),
+                                           ["thread0", "thread1"], spin=3, other=other, big=big or {}),
                     unwind=9, object_bits=12, timeout=timeout, tiers=tiers, slow=True,
                     info={"symbolic": ["schedule: every SC interleaving with <= %d scheduling slots per thread, then deterministic drain (both threads must complete)" % R],
                           "enumerated": ["scenario: " + what, "keys %s" % (keys or KEYS)],
                           "bounds": {"threads": 2, "rounds": R, "levels": 3},
                           "functions": FUNCS + ["key_functions.* are indirect calls: atomic"], "stubs": STUBS + ["nanosleep (benign, elided)"]}))
+    conc(3, 2, ("quick", "thorough"), other=5)
     conc(2, 2, ("quick", "thorough"))
     conc(4, 2, ("quick", "thorough"))
     for sc in (1, 3, 5, 6, 7):
